@@ -120,3 +120,39 @@ Definition tree_bad (t : tree_case) : bool :=
   let '(a, b, c) := tree_report t in
   negb a || negb (match b with [] => true | _ => false end)
          || negb (match c with [] => true | _ => false end).
+
+(* ---- InputFromMap: every file of one call gets its own lookup (and detection when nothing matches);
+   the observed outcome on the both-versions content is the parse outcome of that version ---- *)
+Inductive frommap_case := FromMapCase (m : vmap) (obs : list (str * list outcome)).
+
+Definition frommap_file_ok (m : vmap) (o : str * list outcome) : bool :=
+  let allowed := map (fun p => parse_outcome (version_from_map p (fst o) VUndef) KBoth) (perms m) in
+  forallb (fun g => existsb (outcome_eqb g) allowed) (snd o).
+
+Definition frommap_agrees (c : frommap_case) : bool :=
+  let '(FromMapCase m obs) := c in forallb (frommap_file_ok m) obs.
+
+(* specification: a single answer per file, that of the deepest containing key, v1 when none *)
+Definition frommap_meets_spec (c : frommap_case) : bool :=
+  let '(FromMapCase m obs) := c in
+  negb (forallb (fun kv => clean_key (fst kv)) m && keys_distinct m) ||
+  forallb (fun o => forallb (fun g => outcome_eqb g (parse_outcome (spec_version m (fst o) VUndef) KBoth)) (snd o)) obs.
+
+(* ---- language server: the directory->version map after a history of config (re)loads is that of
+   the last configuration alone ---- *)
+Definition lsp_reload (old : vmap) (manifests : list (str * option version)) (project : option version)
+           (roots : list (str * option version)) : vmap :=
+  all_rego_versions_opt (map (fun kv => (manifest_key (fst kv), snd kv)) manifests) project roots.
+
+Record reload_step := { r_project : option version; r_roots : list (str * option version);
+                        r_obs : list (str * version) }.   (* file name (root-relative, rooted) -> observed version *)
+
+Fixpoint reload_steps_bad (old : vmap) (i : nat) (steps : list reload_step) : list nat :=
+  match steps with
+  | [] => []
+  | st :: rest =>
+      let cur := lsp_reload old [] (r_project st) (r_roots st) in
+      let ok := forallb (fun o => existsb (fun p => version_eqb (snd o) (version_from_map p (fst o) VUndef)) (perms cur))
+                        (r_obs st) in
+      (if ok then [] else [i]) ++ reload_steps_bad cur (S i) rest
+  end.
